@@ -28,13 +28,18 @@ type histOpts struct {
 	ntl       int // percentage of Parse calls with NoTrailingLiterals
 	faults    bool
 	overReset bool // draw Reset data longer than BufferSize now and then
+	// tinyPct: percentage of histories in "small steps" mode: a text of a
+	// few bytes (cyclic, so it repeats at once), chunks of 1..4 bytes, more
+	// operations; blocks then end within a few bytes of the end of the data,
+	// where the parsers read into the margin behind it.
+	tinyPct int
 }
 
 func defaultHistOpts() histOpts {
 	return histOpts{
 		maxOps: 24, maxText: 600,
 		write: 8, fill: 6, readFrom: 4, parse: 12, drain: 6, shrink: 6,
-		resetNil: 1, resetDat: 1, ntl: 30,
+		resetNil: 1, resetDat: 1, ntl: 30, tinyPct: 12,
 	}
 }
 
@@ -83,9 +88,18 @@ func genParserHistory(t *rapid.T, x *parserExec, o histOpts) {
 	if bsz > 1<<16 {
 		bsz = 1 << 16
 	}
-	text := genText(t, "text", o.maxText, cc.BlockSize, cc.BlockSize+1, bsz, bsz-1, bsz+1, cc.WindowSize, cc.WindowSize+1)
+	tiny := o.tinyPct > 0 && rapid.IntRange(0, 99).Draw(t, "tiny") < o.tinyPct
+	var text []byte
+	if tiny {
+		text = genText(t, "text", rapid.IntRange(2, 12).Draw(t, "tinyText"))
+	} else {
+		text = genText(t, "text", o.maxText, cc.BlockSize, cc.BlockSize+1, bsz, bsz-1, bsz+1, cc.WindowSize, cc.WindowSize+1)
+	}
 	src := &textSource{text: text}
 	nops := 3 + rapid.IntRange(0, o.maxOps).Draw(t, "nops")
+	if tiny {
+		nops += rapid.IntRange(0, 2*o.maxOps).Draw(t, "nopsTiny")
+	}
 	for i := 0; i < nops && !x.dead; i++ {
 		var op int
 		if i == 0 && rapid.IntRange(0, 9).Draw(t, "startFill") > 0 {
@@ -102,6 +116,9 @@ func genParserHistory(t *rapid.T, x *parserExec, o histOpts) {
 		case 0: // write a chunk
 			room := cc.BufferSize - x.buffered()
 			n := genSize(t, "wlen", minInt(len(text)+8, 2*bsz+8), 0, 1, room-1, room, room+1, cc.BlockSize)
+			if tiny {
+				n = rapid.IntRange(1, 4).Draw(t, "wlenTiny")
+			}
 			before := len(x.fed)
 			x.step(POp{Op: "write", Data: src.next(n)})
 			src.unread(n - (len(x.fed) - before))
@@ -111,6 +128,9 @@ func genParserHistory(t *rapid.T, x *parserExec, o histOpts) {
 				room = len(text)
 			}
 			n := room + rapid.IntRange(0, 2).Draw(t, "fillExtra")
+			if tiny && rapid.IntRange(0, 3).Draw(t, "fillTiny") > 0 {
+				n = rapid.IntRange(1, 8).Draw(t, "fillLenTiny")
+			}
 			before := len(x.fed)
 			x.step(POp{Op: "write", Data: src.next(n)})
 			src.unread(n - (len(x.fed) - before))
@@ -131,6 +151,9 @@ func genParserHistory(t *rapid.T, x *parserExec, o histOpts) {
 		case 5: // ReadFrom
 			room := cc.BufferSize - x.buffered()
 			n := genSize(t, "rlen", minInt(len(text)+8, 2*bsz+8), 0, 1, room-1, room, room+1)
+			if tiny {
+				n = rapid.IntRange(1, 6).Draw(t, "rlenTiny")
+			}
 			data := src.next(n)
 			rs := genReaderScript(t, "rs", data, o.faults)
 			before := len(x.fed)
@@ -147,7 +170,10 @@ func genParserHistory(t *rapid.T, x *parserExec, o histOpts) {
 				n = cc.BufferSize + rapid.IntRange(1, 3).Draw(t, "resetOverBy")
 			}
 			cp := rapid.SampledFrom([]int{0, 6, 7, 8, 64, bsz + 100}).Draw(t, "resetCap")
-			x.step(POp{Op: "reset", Data: src.next(n), Cap: cp})
+			if tiny {
+				n = minInt(n, rapid.IntRange(0, 6).Draw(t, "resetLenTiny"))
+			}
+			x.step(POp{Op: "reset", Data: src.next(n), Cap: cp, Fill: rapid.SampledFrom([]byte{0, 0xa5, 'a', 0xff}).Draw(t, "resetFill")})
 		case 9:
 			off := genOffset(t, x)
 			ln := genSize(t, "ralen", x.buffered()+3, 0, 1)
